@@ -1,4 +1,5 @@
 import NeoFS.Generated.Consts
+import NeoFS.Generated.Footprint
 import NeoFS.Lemmas.BalanceEvents
 /-! # C01 — Balance: supply equals the sum of balances, no balance is ever negative, supply moves
 only on mint/burn, failed calls are inert, notifications come in pairs and replay all balances
@@ -119,5 +120,51 @@ example : getAcc (run init demoZ).accts L = ⟨100, 2, A⟩ ∧ (run init demoZ)
     total (run init demoZ).accts = 1000 := by decide
 example : applyEvents (fun _ => 0) (histEvents init demoZ) L = 100 ∧
     applyEvents (fun _ => 0) (histEvents init demoZ) A = 900 := by decide
+
+/-! ## Frame of the model, regenerated: which storage keys each Balance method can write
+
+The model keeps the supply in one cell and the accounts in one map and lets only `mint`/`burn` touch the former. That frame
+assumption is checked here against `NeoFS.Generated.Footprint.table` (grouped by contract: `contracts`), the MAY-WRITE footprint computed from the Go sources
+on every run (closure over the static call graph, keys abstracted to their leading constant bytes; `Model/Footprint.lean`).
+The key families are named through the regenerated constants, so a renamed or re-spelt constant does not matter and a
+different byte does. -/
+section Footprint
+open NeoFS.Footprint NeoFS.Generated.Footprint
+
+/-- the key of the total supply (`token.CirculationKey`) -/
+def supplyKey : Fam := exactly NeoFS.Generated.balance_circulation_bytes
+/-- the account records: `accPrefix ‖ address` -/
+def accountKeys : Fam := startingWith NeoFS.Generated.balance_accPrefix_bytes
+
+/-- Over the whole regenerated table: in the Balance contract only `mint` and `burn` can put the total-supply key, and no
+method but the upgrade migration inside `_deploy` (which moves every 20-byte key under the account prefix) can delete it.
+With `onlyBy_sound`: a put row of any other method concerns no key that is the supply key. -/
+theorem supply_key_written_only_by_mint_and_burn :
+    onlyBy contracts "balance" "put" supplyKey ["mint", "burn"] = true ∧
+    onlyBy contracts "balance" "delete" supplyKey ["_deploy"] = true := by decide +kernel
+
+/-- Every storage write of every Balance method other than `_deploy` lies in the account family, and for `mint`/`burn` in the
+account family or at the supply key: nothing else in the contract's storage changes after deployment. -/
+theorem balance_methods_write_only_accounts_and_supply :
+    (methodsOf methods "balance").all (fun m => m == "_deploy" ||
+      writesWithin contracts "balance" m (if m == "mint" || m == "burn" then [accountKeys, supplyKey] else [accountKeys])) = true := by
+  decide +kernel
+
+/-- The supply key and the account family cannot collide. -/
+theorem supply_key_is_not_an_account_key : supplyKey.overlaps accountKeys = false := by decide +kernel
+
+-- non-vacuity: the families ARE written, by the methods named
+example : does contracts "balance" "mint" "put" supplyKey = true ∧ does contracts "balance" "burn" "put" supplyKey = true := by decide +kernel
+example : does contracts "balance" "transfer" "put" accountKeys = true ∧ does contracts "balance" "transfer" "delete" accountKeys = true := by
+  decide +kernel
+example : writers contracts "balance" "put" supplyKey = ["burn", "mint"] := by decide +kernel
+example : ["mint", "burn", "transfer", "transferX", "lock", "newEpoch"].all (methodsOf methods "balance").contains = true := by
+  decide +kernel
+-- a transfer that wrote the supply key, or a mint that wrote another constant key, would be refused
+example : onlyBy (withRow contracts ⟨"balance", "transfer", "put", "", "", NeoFS.Generated.balance_circulation_bytes, true⟩)
+    "balance" "put" supplyKey ["mint", "burn"] = false := by decide +kernel
+example : writesWithin (withRow contracts ⟨"balance", "mint", "put", "", "", [77], true⟩) "balance" "mint" [accountKeys, supplyKey] = false := by
+  decide +kernel
+end Footprint
 
 end NeoFS.Props.C01
